@@ -912,3 +912,9 @@ pub(crate) fn same_bytes(got: &[u8], want: &[u8; WCAP], n: usize) -> bool {
     cmp_bytes!(got, want, n; 0 1 2 3 4 5 6 7 8 9 10 11 12 13 14 15 16 17 18 19 20 21 22 23 24 25 26 27 28 29 30 31 32 33 34 35 36 37 38 39 40 41 42 43 44 45 46 47 48 49 50 51 52 53 54 55);
     true
 }
+
+/// Trivial stand-in for `core::str::from_utf8` for harnesses in which no real string is decoded
+/// (the call is only reachable on paths CBMC cannot prune syntactically).
+pub(crate) fn stub_from_utf8_unreached(v: &[u8]) -> Result<&str, core::str::Utf8Error> {
+    Ok(unsafe { core::str::from_utf8_unchecked(v) })
+}
